@@ -74,9 +74,8 @@ class Check(PropertyCheck):
     def oracle(self, case, obs):
         fails = []
         tr = obs["trace"]; kinds = case["flows"]
-        open_ = None; enq = []; taken = []; arrived = []; pending_take = None; wound = False
-        finished_after_take = True
-        nstop = 0
+        enq = []; wound = False; nstop = 0
+        replays = []      # [flow, option value when it was started, request arrived, finished]
         for r in tr:
             k = r[0]
             if k == "enq":
@@ -88,31 +87,41 @@ class Check(PropertyCheck):
                 # "stopping replay restores every still-queued flow to its pre-replay state"
                 if r[3]: fails.append(f"stop#{nstop}: stop_replay left flows {r[3]} in the queue")
                 for i in r[2]: fails.append(f"stop#{nstop}: flow {i} not restored to its pre-replay state")
-                if r[4] in r[1]:
-                    # a queued flow is also the one in flight: reverting it tears the running replay's state apart
+                if any(x in r[1] for x in r[4]):
+                    # a queued flow is also in flight: reverting it tears the running replay's state apart
                     # (finding F-C53b); nothing after this point is evaluated
                     return fails
                 if enq[:len(r[1])] != r[1]: fails.append(f"stop#{nstop}: queue {r[1]} is not in submission order {enq}")
                 enq = enq[len(r[1]):]
             elif k == "take":
-                # "queued flows are replayed one at a time in queue order"
+                # "queued flows are replayed … in queue order"
                 if not enq or enq[0] != r[1]: fails.append(f"flow {r[1]} taken out of queue order (head {enq[:1]})")
                 else: enq.pop(0)
-                if not finished_after_take: fails.append(f"flow {r[1]} taken while the previous replay had not finished")
-                pending_take = r[1]; finished_after_take = False
+                # "With client_replay_concurrency 1, queued flows are replayed one at a time … a replayed request is sent only
+                #  after the previous replay has finished": a replay that was started while the option was 1 must have
+                #  finished before the next replay is started
+                for p in replays:
+                    if p[1] == 1 and not p[3]:
+                        fails.append(f"flow {r[1]} taken while the replay of flow {p[0]}, started with "
+                                     f"client_replay_concurrency=1, had not finished")
+                replays.append([r[1], r[2], False, False])
             elif k == "arrive":
-                # "a replayed request is sent only after the previous replay has finished"
-                if open_ is not None: fails.append(f"request of flow {r[1]} arrived while the replay of flow {open_} had not finished")
-                if pending_take != r[1]: fails.append(f"request of flow {r[1]} arrived but the running replay is {pending_take}")
-                open_ = r[1]
+                for p in replays:
+                    if p[1] == 1 and not p[3] and p[0] != r[1]:
+                        fails.append(f"request of flow {r[1]} arrived while the replay of flow {p[0]}, started with "
+                                     f"client_replay_concurrency=1, had not finished")
+                cand = [p for p in replays if p[0] == r[1] and not p[2] and not p[3]]
+                if not cand: fails.append(f"request of flow {r[1]} arrived but no replay of it is running")
+                else: cand[0][2] = True
             elif k == "finish":
-                if open_ == r[1]: open_ = None
-                if pending_take == r[1]: finished_after_take = True; pending_take = None
+                cand = [p for p in replays if p[0] == r[1] and not p[3]]
+                if cand: cand[0][3] = True
             elif k == "winddown": wound = True
         # "every replayed flow ends with a response or an error" (liveness, explored: after the server has refused / closed
         #  everything pending)
-        if wound and not finished_after_take:
-            fails.append(f"replay of flow {pending_take} ended with neither response nor error")
+        if wound:
+            for p in replays:
+                if not p[3]: fails.append(f"replay of flow {p[0]} ended with neither response nor error")
         # "queued flows are replayed one at a time in queue order … and every replayed flow ends with a response or an error":
         # once the server has answered / refused / closed everything pending (fairness hypothesis of the Lean theorem
         # every_replay_completes), nothing may be left queued or in flight
@@ -129,7 +138,7 @@ class Check(PropertyCheck):
         stops = [(j, r) for j, r in enumerate(obs["trace"]) if r[0] == "stop"]
         j, rec = stops[n - 1]
         # F-C53b: exactly the stops where a still-queued flow is also the flow in flight
-        if rec[4] in rec[1]: return "F-C53b"
+        if any(x in rec[1] for x in rec[4]): return "F-C53b"
         # F-C53a: exactly the flows that already had a backup (user edit / earlier finished replay) when the start_replay
         # call that queued them ran
         if "not restored to its pre-replay state" in failure:
@@ -141,7 +150,7 @@ class Check(PropertyCheck):
     # ---- model tie ----------------------------------------------------------------------------
     def model_lines(self, case):
         obs = self._last
-        if any(r[0] == "stop" and r[4] in r[1] for r in obs["trace"]):
+        if any(r[0] == "stop" and any(x in r[1] for x in r[4]) for r in obs["trace"]):
             raise Skip("stop while a queued flow is in flight (F-C53b): outside the modelled domain")
         attrs = ",".join(ATTR.get(k, "001110") for k in case["flows"])
         fss = ",".join(FST.get(k, "0.0.0.0/-") for k in case["flows"])
@@ -197,7 +206,7 @@ class Check(PropertyCheck):
             if r[0] == "finish": out.add("finish-" + r[2])
             if r[0] == "stop" and r[1]: out.add("stop-nonempty")
             if r[0] == "stop" and r[2]: out.add("stop-not-restored")
-            if r[0] == "stop" and r[4] in r[1]: out.add("stop-with-queued-flow-in-flight")
+            if r[0] == "stop" and any(x in r[1] for x in r[4]): out.add("stop-with-queued-flow-in-flight")
             if r[0] == "start":
                 for c in r[3]:
                     if c != "none": out.add("refused-" + c)
